@@ -96,11 +96,12 @@ def _parse_pdb_atom_line(line, lit):
 
     # Get element symbol from position 77:78 in pdb format
     symbol = line[76:78].strip()
+    atname = line[12:16].strip()
     if len(symbol) > 0:
-        atnum = sym2num.get(symbol)
+        # The element symbols of wwPDB files are written in upper case, e.g. ZN and CL.
+        atnum = sym2num.get(symbol.title())
     else:
         # If not present, guess it from position 13:16 (atom name)
-        atname = line[12:16].strip()
         atnum = sym2num.get(atname, sym2num.get(atname[:2].title(), sym2num.get(atname[0], None)))
         warn(
             LoadWarning("Using the atom name in the PDB file to guess the chemical element.", lit),
@@ -115,8 +116,7 @@ def _parse_pdb_atom_line(line, lit):
             stacklevel=2,
         )
 
-    # atom name, residue name, chain id, & residue sequence number
-    atname = line[12:16].strip()
+    # residue name, chain id, & residue sequence number
     resname = line[17:20].strip()
     chainid = line[21]
     resnum = int(line[22:26])
